@@ -346,6 +346,9 @@ func (g *gen) input(edge bool) Input {
 		// and panic)
 		rv := typeList[tyIndex(in.Type)].Recv
 		firstPhase := map[string][]int{"create": {0, 1}, "save": {0, 1}, "update": {0, 4}, "updates": {0, 4}, "delete": {6}}[in.Op]
+		if in.Op == "save" && isStruct(in.Shape) && len(in.Recs) > 0 && in.Recs[0].ID != 0 {
+			firstPhase = []int{0, 4} // Save of a struct with its key set starts with the update pipeline
+		}
 		guard, anyVal := false, false
 		for _, i := range firstPhase {
 			if rv[i] != '-' {
